@@ -27,3 +27,15 @@ class HookFormatter(logging.Formatter):
                 HookFormatter.HOOK[0]()
             finally:
                 HookFormatter.busy[0] = False
+
+
+class OldStyle(logging.Formatter):
+    """A formatter class written before formatters had styles: its
+    constructor takes the format and the date format, nothing else."""
+
+    def __init__(self, fmt=None, datefmt=None):
+        logging.Formatter.__init__(self, fmt, datefmt, validate=False)
+
+
+def make_old(fmt=None, datefmt=None):
+    return OldStyle(fmt, datefmt)
